@@ -7,7 +7,9 @@ the Rust behaviour alone (authentic, strictly-newer replacement, rejected batch 
 non-members ignored, convergence of nodes that saw the same announcements)."""
 import json
 import re
+import sys
 import common
+import c18_loops as loops
 from common import Rng, coq_z, coq_list, coq_bool
 
 PROP_FILES = ["theories/Properties/C18.v"]
@@ -255,7 +257,11 @@ def coq_case(c, chk):
 BIGNUM = re.compile(r"\(-\d{7,}\)|(?<![\w.])\d{7,}")
 GCONST = [("gU64M", U64M), ("gTSMAX", TS_MAX), ("gNOW", NOW)]
 PREAMBLE = ("From EC Require Import Model.AddrBook.\n" +
-            "".join("Definition %s : BinNums.Z := %d%%Z.\n" % (n, v) for n, v in GCONST))
+            "".join("Definition %s : BinNums.Z := %d%%Z.\n" % (n, v) for n, v in GCONST) +
+            "Definition run_any (x : (bool * list op) + net_case) : obsv :=\n"
+            "  match x with inl a => Model.AddrBook.run_case a | inr b => Model.AddrBook.run_net_case b end.\n"
+            "Definition cA (a : bool * list op) : (bool * list op) + net_case := inl a.\n"
+            "Definition cB (b : net_case) : (bool * list op) + net_case := inr b.\n")
 
 
 def compress(term):
@@ -443,7 +449,7 @@ def run(rep):
     if not po["ok"]:
         broken.append("Coq obligations of Properties/C18.v: " + (po["log_tail"] or str(po["hygiene_problems"] or po["bad_axioms"])))
     for prof in ("dev", "release"):
-        ok, out = common.cargo_build(["addrbook"], prof)
+        ok, out = common.cargo_build(["addrbook"] + (["addrloops"] if prof == "dev" else []), prof)
         if not ok:
             raise common.MachineryError("cargo build failed: " + out[-2000:])
     st_gen, st_res = {}, {}
@@ -461,7 +467,7 @@ def run(rep):
     coq_cases, dist, evals, kinds = [], set(), 0, {}
     n = len(cases)
     for i, (c, o) in enumerate(zip(cases, outs)):
-        coq_cases.append((i, compress(coq_case(c, True)), compress(common.to_obsv(impl_obs(o)))))
+        coq_cases.append((i, compress("cA " + coq_case(c, True)), compress(common.to_obsv(impl_obs(o)))))
         kinds[c["kind"].split(" ")[0]] = kinds.get(c["kind"].split(" ")[0], 0) + 1
         prev = []
         for op, s in zip(c["ops"], o["steps"]):
@@ -470,16 +476,40 @@ def run(rep):
                 dist.add(json.dumps([op, prev], sort_keys=True))
             prev = s["book"]
     for j, (c, o) in enumerate(zip(rel_cases, rel_outs)):
-        coq_cases.append((n + j, compress(coq_case(c, False)), compress(common.to_obsv(impl_obs(o)))))
+        coq_cases.append((n + j, compress("cA " + coq_case(c, False)), compress(common.to_obsv(impl_obs(o)))))
         evals += len(o["steps"])
-    sample_ids = [0, 2, 3, 4, n]
-    mm, samp = common.run_model_cases("C18", PREAMBLE, "Model.AddrBook.run_case",
+    # the real gossip loops (real nodes over TCP, harness = scripted peer)
+    st_loops = {}
+    lcases = loops.make_cases(rng, 60 if tier == "quick" else 1200, sys.modules[__name__])
+    ljson = [loops.json_case(c) for c in lcases]
+    louts = loops.run_impl_parallel(ljson)
+    nl = n + len(rel_cases)
+    lkinds = {}
+    for j, (c, o) in enumerate(zip(lcases, louts)):
+        if "crash" in o or "skipped" in o:
+            raise common.MachineryError(f"addrloops crashed on case {j}: {o}")
+        lkinds[c["kind"].split(" ")[0]] = lkinds.get(c["kind"].split(" ")[0], 0) + 1
+        for b in loops.predicate(c, o, st_loops):
+            pred_fail.append({"loops_case": ljson[j], **b})
+        if not o.get("stuck"):
+            coq_cases.append((nl + j, compress("cB " + loops.coq_case(c)), compress(common.to_obsv(loops.impl_obs(o)))))
+            evals += 2 * len(o["ops"])
+            for op, s_ in zip(ljson[j]["ops"], o["ops"]):
+                if s_["res"] != "ok" or any(len(r) > 1 for r in s_["repush"]):
+                    dist.add(json.dumps([ljson[j]["committee"], len(c["nodes"]), op], sort_keys=True))
+    sample_ids = [0, 2, 3, 4, n, nl, nl + 1]
+    mm, samp = common.run_model_cases("C18", PREAMBLE, "run_any",
                                       coq_cases, shard_size=max(40, (len(coq_cases) + 15) // 16), sample_ids=sample_ids)
     if mm:
         broken.append(f"correspondence vh addrbook vs Model.AddrBook.run_case: {len(mm)} disagreeing cases")
 
     def case_of(i):
+        if i >= nl:
+            return (lcases[i - nl], louts[i - nl], True)
         return (cases[i], outs[i], True) if i < n else (rel_cases[i - n], rel_outs[i - n], False)
+
+    def jcase_of(i):
+        return ljson[i - nl] if i >= nl else json_case(case_of(i)[0])
 
     searched = 0
     if broken and not pred_fail:
@@ -488,7 +518,12 @@ def run(rep):
         big = make_cases(srng, 3000 if tier == "quick" else 20000, {})
         bouts = common.run_impl("addrbook", [json_case(c) for c in big], "dev")
         pred_fail, _ = check_impl(big, bouts, True, None)
-        searched = len(big)
+        bl = loops.make_cases(srng, 300 if tier == "quick" else 2000, sys.modules[__name__])
+        blj = [loops.json_case(c) for c in bl]
+        for c, cj, o in zip(bl, blj, loops.run_impl_parallel(blj)):
+            for b in loops.predicate(c, o):
+                pred_fail.append({"loops_case": cj, **b})
+        searched = len(big) + len(bl)
     if pred_fail:
         rep.violation("address book violates C18 on the implementation: " + pred_fail[0]["failed"],
                       {"failing_input": pred_fail[0], "more": pred_fail[1:4], "broken": broken})
@@ -497,21 +532,22 @@ def run(rep):
         if mm:
             i = sorted(mm)[0]
             c, o, chk = case_of(i)
-            first = {"case": json_case(c), "chk": chk, "impl": o, "model_obs": mm[i]}
+            first = {("loops_case" if i >= nl else "case"): jcase_of(i), "chk": chk, "impl": o, "model_obs": mm[i]}
         rep.violation("C18 no longer shown to hold: " + "; ".join(broken)[:500],
                       {"broken": broken, "first_disagreement": first, "searched_cases": searched}, found_input=False)
     samples = []
     for i in sample_ids:
         if i < len(coq_cases):
             c, o, chk = case_of(i)
-            samples.append({"case": json_case(c), "overflow_checks": chk, "impl": o, "model_obs": samp.get(i)})
+            samples.append({"case": jcase_of(i), "overflow_checks": chk, "impl": o, "model_obs": samp.get(i)})
     cov.update({
         "obligations": po["obligations"] + 1,
         "discharged": po["discharged"] + (0 if mm else 1),
-        "checker_cmd": "make -C coq theories/Properties/C18.vo + coqc on generated cases_*.v (vm_compute of Model.AddrBook.run_case)",
+        "checker_cmd": "make -C coq theories/Properties/C18.vo + coqc on generated cases_*.v (vm_compute of Model.AddrBook.run_case / run_net_case)",
         "trusted_base": common.standard_trusted_base([
             "H-SIG: BLS signatures are modelled as terms sig(key, msg); the Rust side uses real blst signatures of pool keys, forged = really signed by another key / over another message",
             "hook zksync_consensus_network::verif::gossip::AddrBook (thin wrapper of ValidatorAddrsWatch::{update, announce, current})",
+            "loops: real nodes built and run through the public Network::new / Runner::run; the scripted peer of vh addrloops hand-encodes preface, gossip handshake and rpc frames and uses the hooks verif::NoiseStream and verif::mux::{VMux, VQueue}; a node's book is read as the first push on a fresh connection",
         ]),
         "theorems": po["theorems"], "axioms": po["axioms"],
         "evaluations": evals,
@@ -521,21 +557,29 @@ def run(rep):
                 "(other signer, signature over other addr/version/timestamp), non-member keys, duplicate keys ~8% of batches, committee changes), own announce ops "
                 "(incl. at version u64::MAX-2..u64::MAX; run under both overflow profiles), 35% clean cases (valid, unique stamps); 3/4 of the update-only cases get a twin "
                 "with the same announcements in another order/grouping; evaluations = operations executed (dev + release); non-trivial = distinct (operation, book before) "
-                "pairs whose operation changed the book or was rejected",
+                "pairs whose operation changed the book or was rejected. LOOPS: real nodes (1 non-validator node / 2 connected non-validator nodes / 1 validator node "
+                "that dials) over loopback TCP with committees of 3-5 keys; 3-7 push_validator_addrs requests of 1-5 announcements sent by the scripted peer (same stamp "
+                "generator, ~16% forged, non-members, duplicate keys, valid prefix + invalid tail), each followed by a barrier announcement; observed: response or "
+                "closed stream, every entry each node pushes back, the TCP connections the validator node opens to announced addresses, final books; a loops "
+                "operation counts as 2 evaluations (request + barrier) and is non-trivial if rejected or if it made a node push news",
         "input_distribution": {"case_kinds": kinds, "generated": st_gen, "impl_outcomes": st_res,
-                               "release_profile_cases": len(rel_cases), "convergence_pairs_checked": conv},
+                               "release_profile_cases": len(rel_cases), "convergence_pairs_checked": conv,
+                               "loops_case_kinds": lkinds, "loops_outcomes": st_loops},
         "cases": len(coq_cases),
         "samples": samples,
         "correspondence_mismatches": len(mm), "predicate_failures": len(pred_fail),
-        "partial": "book_convergent is proved for update traffic under one committee (no own announce ops, no committee change between the compared nodes); "
-                   "book_monotone over whole histories is for overflow checks on (announce panics at u64::MAX) - without overflow checks announce wraps to version 0 "
+        "partial": "book_monotone over whole histories is for overflow checks on (announce panics at u64::MAX) - without overflow checks announce wraps to version 0 "
                    "when the node's own entry has version u64::MAX (theorem announce_wrap_regresses; needs the node's own key to have signed u64::MAX); "
-                   "runner.rs / consensus/mod.rs are covered only through the functions they call (update, announce, get().msg.addr), not their rpc loops; "
-                   "get_newer (what is pushed to peers) is not modelled",
+                   "the gossip theorems (push content, convergence, settling) are for two honest nodes with one schedule, one request in flight per direction as in the "
+                   "client loop, outside traffic arbitrary; own announce ops are not part of that system (they are covered by authentic/monotone); "
+                   "across a committee change the theorems are per-batch-schedule (book = newest announcement accepted while its key was a member; keys that left are frozen); "
+                   "in the code a new epoch starts a new Network instance with an empty book, which is the special case of a fresh history; "
+                   "the real loops are tied by correspondence and predicates (vh addrloops), their rpc plumbing (mux, limiter, scope) is not modelled here (C14-C17)",
     })
     rep.assumptions += [
         "H-SIG: a signature verifies under key k for message m iff it is the term sig(k, m) (BLS12-381 via blst trusted)",
         "H-ADV (theorem book_honest_origin only): every signature term of an honest key occurring in any batch is one that key produced",
+        "H-ATOM (gossip theorems): a served request (ValidatorAddrsWatch::update under its mutex) and the diff computation of the push loop are atomic steps; one request in flight per direction (the client awaits the response)",
     ]
 
 
@@ -549,6 +593,15 @@ def replay(path):
             return 1
         fi = fd
     prof = "dev" if fi.get("chk", True) else "release"
+    if "loops_case" in fi:
+        common.cargo_build(["addrloops"], "dev")
+        print("loops_case", json.dumps(fi["loops_case"]))
+        print(json.dumps(common.run_impl("addrloops", [fi["loops_case"]], "dev")[0], indent=1))
+        if "failed" in fi:
+            print("predicate:", fi["failed"])
+        if "model_obs" in fi:
+            print("model:", fi["model_obs"])
+        return 0
     common.cargo_build(["addrbook"], prof)
     for name in ("case", "twin"):
         if name in fi:
